@@ -728,6 +728,116 @@ def split_args(s):
     return out
 
 
+# ------------------------------------------------------------------------------------------ API mode (lazy field lists)
+
+# each probe runs in a fresh process in which it is the first operation touching the struct type
+API_PROBES = [
+    "p = ffi.new('struct V[2]', [[1, [7, 8]], [2]])",
+    "p = ffi.new('struct V[1]', [[1, [7, 8, 9, 10, 11, 12, 13, 14]]])",
+    "p = ffi.new('struct V[2]', [[1], [2]])",
+    "p = ffi.new('struct V[2]', [[1, 0], {'n': 2}])",
+    "p = ffi.new('struct V[3]', ([1, []], (2,), {'a': 0}))",
+    "p = ffi.new('struct X[2]', [[1, [2, [3, 4]]], [5]])",
+    "p = ffi.new('struct X[2]', [[1, [2]], [5]])",
+    "p = ffi.new('struct W *', [[[1, [7, 8]], [2]], 9])",
+    "p = ffi.new('struct W *', [[[1], [2]], 9])",
+    "p = ffi.new('struct C[2]', [[b'x', b'abc'], [b'y']])",
+    "p = ffi.new('struct V(*)[2]'); p[0] = [[1, [7, 8]], [2]]",
+    "p = ffi.new('struct V(*)[2]'); p[0] = [[1], [2]]",
+    "p = ffi.new('struct V *', [1, [7, 8]])",
+    "p = ffi.new('struct X *', [1, [2, [3, 4]]])",
+]
+
+
+def api_mode(ctx):
+    """ffi.new behaves the same whether the struct's field list was loaded lazily (compiled API module) or eagerly
+    (in-line FFI): same bytes or same exception class; refused initializers are refused in both."""
+    s = ctx.scratch()
+    out, p = s.run_worker("c20_api_worker.py", dict(mode="build"), timeout=600)
+    if out is None:
+        ctx.obligation_broken("C20 API-mode module does not build", (p.stderr or p.stdout)[-2000:])
+        return
+    from concurrent.futures import ThreadPoolExecutor
+
+    def probe(args):
+        code, flavour = args
+        return s.run_worker("c20_api_worker.py", dict(mode="probe", flavour=flavour, code=code), timeout=300)
+    jobs = [(c, f) for c in API_PROBES for f in ("api", "inline")]
+    with ThreadPoolExecutor(6) as ex:
+        res = list(ex.map(probe, jobs))
+    for i, code in enumerate(API_PROBES):
+        (ra, pa), (ri, pi) = res[2 * i], res[2 * i + 1]
+        ctx.count()
+        ctx.hist("api_probe", "crash" if ra is None else ra.get("error", "ok"))
+        case = dict(kind="api_probe", code=code)
+        if ri is None:
+            ctx.violation(case, "in-line FFI probe crashed: %s (rc=%s)" % (code, pi.returncode))
+        elif ra is None:
+            ctx.violation(case, "%s as the first operation on a lazily-loaded struct (API-mode module) crashed the "
+                                "interpreter (rc=%s: %s); the in-line FFI gives %r" % (
+                                    code, pa.returncode, sanitizer_summary(pa.stderr)[:200], ri))
+        elif ra != ri:
+            ctx.violation(case, "%s as the first operation on a lazily-loaded struct (API-mode module) gives %r; "
+                                "with eagerly loaded fields (in-line FFI) it gives %r" % (code, ra, ri))
+        else:
+            ctx.nontrivial(("api", code))
+
+
+def replay(ctx, body):
+    if body["case"].get("kind") == "api_probe":
+        global API_PROBES
+        API_PROBES = [body["case"]["code"]]
+        api_mode(ctx)
+    else:
+        evaluate(ctx, [body["case"]])
+
+
+# ------------------------------------------------------------------------------------------ regenerated order fact
+
+GEN = "C20/Gen.v"
+GEN_TEXT = """(* C20 — REGENERATED on every run by tools/props/c20.py regen() from /repo/src/c/_cffi_backend.c
+   (convert_array_from_object, comments stripped; fail closed -> this committed snapshot).
+   Order fact extracted: in the function's text the call force_lazy_struct(ctitem) comes BEFORE
+   the first read of ct_flags_mut (CT_WITH_VAR_ARRAY is only set once a struct's field list has
+   been loaded; API-mode modules load field lists lazily).
+     true  = the item struct is forced before its CT_WITH_VAR_ARRAY flag is read;
+     false = the flag may be read while the fields are still lazy, i.e. as 0. *)
+Definition forced_before_flag_read : bool := %s.
+"""
+
+
+def order_fact():
+    src = open(os.path.join(vlib.REPO, "src/c/_cffi_backend.c")).read()
+    m = re.search(r"\nconvert_array_from_object\(char \*data[^)]*\)\s*\{(.*?)\n\}\n", src, re.S)
+    if not m:
+        raise ValueError("convert_array_from_object not found")
+    body = re.sub(r"/\*.*?\*/", " ", m.group(1), flags=re.S)
+    reads = [x.start() for x in re.finditer(r"ct_flags_mut", body)]
+    forces = [x.start() for x in re.finditer(r"force_lazy_struct\s*\(\s*ctitem\s*\)", body)]
+    if not reads:
+        raise ValueError("no read of ct_flags_mut in convert_array_from_object (guard removed?)")
+    if not forces:
+        return False
+    return forces[0] < reads[0]
+
+
+def regen(ctx):
+    path = os.path.join(vlib.COQ, GEN)
+    old = open(path).read() if os.path.exists(path) else None
+    try:
+        text = GEN_TEXT % ("true" if order_fact() else "false")
+    except Exception as e:
+        ctx.translator(GEN, "fallback: %s" % e)
+        return
+    if text != old:
+        with vlib.CoqLock():
+            with open(path, "w") as f:
+                f.write(text)
+        ctx.translator(GEN, "regenerated")
+    else:
+        ctx.translator(GEN, "unchanged")
+
+
 def run(ctx):
     ctx.cov["rule"] = ("one evaluation = one (type, initializer) pair run through ffi.new(T, init), through the assignment "
                        "form (ffi.new(T); p[0] = init, or a zero block of the same size for var-sized structs, or a "
@@ -746,7 +856,9 @@ def run(ctx):
         "primitive value conversion abstracted: integer ranges modelled, float encodings supplied by struct.pack "
         "(C03/C05 own them); long double / complex / enum initializers not generated",
         "Py_ssize_t wrap-around test of add_varsize_length modelled as a comparison with 2^63-1",
-        "wide-char arrays: the model writes the terminator; on zeroed memory this is indistinguishable from cffi"]
+        "wide-char arrays: the model writes the terminator; on zeroed memory this is indistinguishable from cffi",
+        "C20/Gen.v (regenerated): in convert_array_from_object force_lazy_struct(ctitem) precedes the first read of "
+        "ct_flags_mut; API-mode (lazy field lists) behaviour is compared with the in-line FFI in fresh processes"]
     cases = generate(ctx)
     evaluate(ctx, cases)
     if ctx.thorough:
@@ -757,6 +869,8 @@ def run(ctx):
         evaluate(ctx, unpacked[:ctx.n(0, 3000)], asan=True)
     # witnesses of the (fixed) finding array_of_varsize_struct, always under ASan
     evaluate(ctx, finding_cases(), asan=True)
+    # out-of-line API module: lazily loaded field lists, one fresh process per probe
+    api_mode(ctx)
 
 
 MANIFEST = dict(
@@ -779,7 +893,9 @@ MANIFEST = dict(
          "model, as one convert_from_object in the C code): the equality new(T, init) == new(T); p[0] = init is decided by "
          "the correspondence on the real code. The earlier refutation for arrays of var-sized structs (heap overflow, "
          "finding array_of_varsize_struct) was repaired in /repo commit 812503f; the guard is modelled (item_guard) and "
-         "the theorem now holds without that exclusion. The hand model is tied to the C code on every run by comparing "
+         "the theorem now holds without that exclusion; its proof uses the regenerated order fact C20/Gen.v (the item "
+         "struct is forced before CT_WITH_VAR_ARRAY is read), so moving the flag read before force_lazy_struct breaks "
+         "the obligation, and an API-mode module with lazily loaded structs is probed in fresh processes. The hand model is tied to the C code on every run by comparing "
          "bytes / ffi.sizeof / exception class of ffi.new(T, init), of the assignment form and of the by-name form on "
          "generated nested initializers.",
     note="Trusted: Coq kernel; hand model C20/Model.v (tied by differential testing, not by translation); layouts are read "
